@@ -372,5 +372,30 @@ func Families(tier string) []Family {
 		}
 		fams = append(fams, f)
 	}
+
+	// order: at least two entries in every table a diagnostic is chosen from (C20)
+	{
+		f := Family{Name: "order"}
+		toks := Ts("--ver", "--u1", "--u2", "-u3", "c1", "c2", "--aaa=x", "--bbb=y", "--ccc", "--help", "help", "x")
+		for _, um := range []int{0, 1} {
+			for mode := 0; mode < 2; mode++ {
+				c := Cfg{Mode: mode}
+				c.Nodes = []NodeCfg{rootNode(um, false), cmdNode("c1", 1, um, false, true), cmdNode("c2", 1, um, false, true)}
+				c.Nodes[0].Fn = true
+				aaa := opt("string", "aaa", 1, "zz")
+				aaa.Req = true
+				bbb := opt("string", "bbb", 1, "a0")
+				bbb.Req = true
+				ccc := opt("bool", "ccc", 2, "ab")
+				ccc.Req = true
+				ddd := opt("int", "ddd", 2)
+				ddd.Req, ddd.HasMsg, ddd.ReqMsg = true, true, T("ddd is needed")
+				c.Opts = []OptCfg{aaa, bbb, ccc, ddd, opt("bool", "verbose", 1), opt("bool", "version", 1)}
+				c = WithHelp(c, "help")
+				f.Defs = append(f.Defs, Def{Cfg: c, Tokens: toks, L: lim(tier, 3, 4), Disp: true})
+			}
+		}
+		fams = append(fams, f)
+	}
 	return fams
 }
